@@ -345,3 +345,49 @@ class ServerRec(sd.ServerServiceListener):
 
     def client_unsubscribed(self, subscription, source):
         self.log.append((self.sim.now, self.name, "unsubscribed", sub_key(subscription), tuple(source), subscription.ttl))
+
+
+# ---------------------------------------------------------------- structural state snapshot
+def deep_state(root, max_depth=12):
+    """a structural fingerprint of everything reachable from a library object: attribute names and values of
+    library-defined objects, containers, timer deadlines - independent of how the library names or nests its state.
+    Loggers, locks, transports, tasks, functions and harness objects are skipped."""
+    import asyncio
+    import dataclasses
+    import enum
+    import threading
+
+    seen = set()
+    lock_types = (type(threading.Lock()), type(threading.RLock()))
+
+    def walk(o, depth):
+        if o is None or isinstance(o, (bool, int, float, str, bytes, bytearray)):
+            return o if not isinstance(o, float) else round(o, 6)
+        if isinstance(o, enum.Enum):
+            return repr(o)
+        if isinstance(o, asyncio.TimerHandle):
+            return ("timer", round(o.when(), 6), o.cancelled())
+        if isinstance(o, (asyncio.Handle, asyncio.Future, asyncio.Event, logging.Logger, FakeTransport)) or isinstance(o, lock_types) or callable(o):
+            return None
+        if depth > max_depth or id(o) in seen:
+            return "..."
+        if isinstance(o, (list, tuple)) or type(o).__name__ == "deque":
+            return [walk(x, depth + 1) for x in o]
+        if isinstance(o, (set, frozenset)):
+            return sorted((repr(walk(x, depth + 1)) for x in o))
+        if isinstance(o, dict):
+            return sorted(((repr(walk(k, depth + 1)), walk(v, depth + 1)) for k, v in o.items()), key=lambda kv: kv[0])
+        mod = type(o).__module__ or ""
+        if not mod.startswith("someip"):
+            return None    # harness objects (recording listeners) and foreign objects
+        if dataclasses.is_dataclass(o):
+            # field by field (a repr would contain the memory addresses of nested plain objects)
+            return (type(o).__name__, [(f.name, walk(getattr(o, f.name, None), depth + 1)) for f in dataclasses.fields(o)])
+        seen.add(id(o))
+        try:
+            attrs = vars(o)
+        except TypeError:
+            return repr(type(o))
+        return (type(o).__name__, sorted(((k, walk(v, depth + 1)) for k, v in attrs.items() if k not in ("log", "sd", "announcer", "timings")), key=lambda kv: kv[0]))
+
+    return walk(root, 0)
